@@ -15,6 +15,14 @@ func init() {
 			a.c15VerifyTable("P.tag-table")
 			a.c15Writers()
 			a.c15RestoreOnReject("S.tag-restore")
+			// tags are read as 32-bit hexadecimal numbers, without silent truncation of longer fields
+			a.narrowings("U.narrow", false)
+			if f := a.MustFn("parseItag"); f != nil {
+				if c := a.uniqueCall("P.tag-parse", f, "strconv.ParseUint"); c != nil {
+					a.TermIs("P.tag-parse", "parseItag|base", "number base", c, c.Call.Args[1], "16")
+					a.TermIs("P.tag-parse", "parseItag|bits", "number width", c, c.Call.Args[2], "32")
+				}
+			}
 			a.c15Dispatch()
 			a.c15Layout()
 		})
